@@ -444,7 +444,17 @@ func (s *Server) Env(op EnvOp) int {
 		}
 		mutate(func(o Obj) {
 			st := Obj{"conditions": []interface{}{Obj{"type": "Ready", "status": "True"}}}
-			if len(op.Path) == 0 || op.Path[0] != "noOG" {
+			mode := ""
+			if len(op.Path) > 0 {
+				mode = op.Path[0]
+			}
+			switch mode {
+			case "noOG":
+			case "zeroOG": // reported as 0: "not observed anything yet" -- metacontroller treats it as not reported
+				st["observedGeneration"] = int64(0)
+			case "strOG": // wrong type: cannot be read, treated as not reported
+				st["observedGeneration"] = "7"
+			default:
 				if g, ok := toInt64(meta(o)["generation"]); ok {
 					st["observedGeneration"] = g
 				}
